@@ -2,9 +2,9 @@
 INIT Init
 NEXT Next
 CONSTANTS
-  OpsAt <- OpsSim
+  OpsAt <- OpsSim5
   UNames = {1, 2}
-  Vals = {1, 2}
+  Vals = {1, 2, 6, 7}
   WithFailed = TRUE
   WithRoot = TRUE
   WithUseOr = TRUE
@@ -18,6 +18,8 @@ CONSTANTS
   NestSet <- NestFew
   TwoRuns = FALSE
   OpsB = 0
+  EqualLayers = TRUE
+  UseOrRoot = TRUE
 INVARIANT Visible
 INVARIANT Shadow
 INVARIANT DeleteLocal
